@@ -1151,6 +1151,52 @@ fn run_one(c: &Case, exp: &Expect, cfg: &SimConfig, decider: Decider) -> (Observ
     (obs, v)
 }
 
+fn spec_with_fds(c: &Case) -> ScriptSpec {
+    let mut s = spec_of(c);
+    s.script.push_str("fds\n");
+    s
+}
+
+fn fds_line(stdout: &str) -> Option<&str> {
+    stdout.lines().rev().find(|l| l.starts_with("fds:"))
+}
+
+/// The main shell's final descriptor table in the fault-free FIFO run, and the
+/// number of descriptor allocations of all processes in that run.
+fn emfile_baseline(c: &Case) -> (String, u32) {
+    let cfg = SimConfig {
+        fail_alloc_pid: None,
+        ..Default::default()
+    };
+    let obs = run_script(&spec_with_fds(c), &cfg, Decider::record(Rng::new(1)));
+    (fds_line(&obs.stdout).unwrap_or("").to_string(), obs.alloc_count)
+}
+
+fn run_emfile(
+    c: &Case,
+    exp: &Expect,
+    cfg: &SimConfig,
+    decider: Decider,
+    base_fds: &str,
+) -> (Observed, Option<(String, String, String)>) {
+    let obs = run_script(&spec_with_fds(c), cfg, decider);
+    let mut v = check_run_opt(c, exp, &obs, false);
+    if v.is_none()
+        && let Some(l) = fds_line(&obs.stdout)
+        && l != base_fds
+    {
+        v = Some((
+            "fd-leak".into(),
+            "fd-leak".into(),
+            format!(
+                "after a descriptor allocation failed (EMFILE at allocation {:?}) the shell ends with `{l}`, the fault-free run with `{base_fds}`\nstderr {:?}",
+                cfg.fail_alloc_at, obs.stderr
+            ),
+        ));
+    }
+    (obs, v)
+}
+
 fn run_crash(c: &Case, cfg: &SimConfig, decider: Decider) -> Observed {
     crate::shellrun::run_script_with(&spec_of(c), cfg, decider, |_| {}, crate::shellrun::crash_env(cfg))
 }
@@ -1276,12 +1322,44 @@ impl Prop for C13 {
                 }
             }
         }
+        if first_failure.is_none() {
+            // descriptor exhaustion (EMFILE) at up to three seeded allocation
+            // positions of any process: the shell still terminates, waits
+            // truthfully, and its own descriptor table at the end is the one
+            // of the fault-free run (`fds` appended to the program)
+            let (base_fds, allocs) = emfile_baseline(&case);
+            for j in 0..allocs.min(3) {
+                let mut cfg = draw_config(&mut rng, 1 + j);
+                cfg.fail_alloc_at = Some(1 + rng.below(allocs));
+                cfg.fail_alloc_pid = None;
+                let (obs, v) = run_emfile(&case, &exp, &cfg, Decider::record(Rng::stream(seed, 1380 + j as u64, index)), &base_fds);
+                stats.note_run(case_hash ^ 0xE3F1, &obs.outcome, obs.faults_fired);
+                stats.add_counters(&obs.counters);
+                stats.digest(index, crate::shellrun::obs_digest(&obs));
+                if let Some(v) = v {
+                    stats.count("violating_runs", 1);
+                    let mut f = failure(&case, &cfg, &obs, &[], v);
+                    f.key = format!("emfile:{}", f.key);
+                    first_failure = Some(f);
+                    break;
+                }
+            }
+        }
         first_failure
     }
 
     fn rerun(&self, case: &Value, cfg: &SimConfig, decisions: &[Decision]) -> Option<Failure> {
         let c: Case = serde_json::from_value(case.clone()).ok()?;
         let exp = expect(&c);
+        if cfg.fail_alloc_at.is_some() {
+            let (base_fds, _) = emfile_baseline(&c);
+            let (obs, v) = run_emfile(&c, &exp, cfg, Decider::replay(decisions), &base_fds);
+            return v.map(|v| {
+                let mut f = failure(&c, cfg, &obs, decisions, v);
+                f.key = format!("emfile:{}", f.key);
+                f
+            });
+        }
         if cfg.crash_permille > 0 {
             let obs = run_crash(&c, cfg, Decider::replay(decisions));
             return check_run_opt(&c, &exp, &obs, false).map(|v| {
